@@ -217,8 +217,23 @@ def hM2DZh : Handler
     | none => "bad-op"
   | _ => "bad-op"
 
+def enTodCfg : TodCfg :=
+  { numbers := RTV.Gen.DtMaps.numbers_en, getSwiftDay := enGetSwiftDay drvUni, getHour := enGetHour drvUni }
+
+/-- tod ref kind(whole|parsed|nothing) hourGroup(`none` = absent) hourNumGroup tOk tTimex tFuture matched matchStr -> res -/
+def hTod : Handler
+  | [ref, kind, hourG, hourNum, tOk, tTimex, tFut, matched, ms] =>
+    let t : TodTime :=
+      if kind == "whole" then .whole (if hourG == "none" then none else some (parseCps hourG)) (parseCps hourNum)
+      else if kind == "parsed" then
+        .parsed (toSlot .time { success := parseBool tOk, timex := parseCps tTimex, future := parseDT tFut, past := parseDT tFut })
+      else .nothing
+    showExcept showRes (parseTimeOfToday drvUni enTodCfg t (if parseBool matched then some (parseCps ms) else none) (parseDT ref))
+  | _ => "bad-op"
+
 def dispatchDtRes (op : String) (args : List String) : Option String :=
   match op with
+  | "dt.tod" => some (hTod args)
   | "dt.m2dzh" => some (hM2DZh args)
   | "dt.zhtime" => some (hZhTime args)
   | "dt.dtfmt" => some (hDtFmt args)
